@@ -14,6 +14,12 @@ use winterfell::{Air, Trace};
 
 use crate::c01::params_for;
 
+/// a constructor refusing its arguments (an assertion in the context module) is an allowed
+/// outcome; arithmetic or indexing panics are not refusals
+fn refusal(pn: &vcommon::PanicInfo) -> bool {
+    pn.rel_file().ends_with("air/context.rs") && !pn.message.contains("attempt to") && !pn.message.contains("out of bounds") && !pn.message.contains("out of range")
+}
+
 /// divisor for every (n, e): zero set, degree, value at random points vs the definition
 fn divisors<B: BaseFut + Fut<B = B>>(rep: &mut Report, rng: &mut Rng, max_log_n: u32)
 where
@@ -155,10 +161,41 @@ fn degrees(rep: &mut Report, max_log_n: u32, max_base: usize) {
                         },
                         Err(pn) => {
                             rep.count("contexts_refused");
-                            if !pn.message.contains("number of transition exemptions cannot exceed") {
+                            if !refusal(&pn) {
                                 rep.violation(&format!("{}|context", pn.sig()), json!({"ctx": ctx, "exemptions": e}));
                             }
                         },
+                    }
+                }
+                // multi-segment contexts: the declaration sits on the auxiliary segment (main
+                // constraint of degree 1) or on the main segment (auxiliary constraint of degree
+                // 1); the composition columns must hold the composition polynomial either way
+                for (where_, main_d, aux_d) in [("aux", TransitionConstraintDegree::new(1), d.clone()), ("main", d.clone(), TransitionConstraintDegree::new(1))] {
+                    for e in [1usize, 2, 3] {
+                        let c = guard(|| {
+                            let c = AirContext::<B>::new_multi_segment(TraceInfo::new_multi_segment(1, 1, 1, n, vec![]), vec![main_d.clone()], vec![aux_d.clone()], 1, 1, options.clone());
+                            if e > 1 { c.set_num_transition_exemptions(e) } else { c }
+                        });
+                        rep.evals(1);
+                        match c {
+                            Ok(c) => {
+                                rep.count("multi_segment_contexts_accepted");
+                                let cols = c.num_constraint_composition_columns();
+                                let comp_degree = want_eval.saturating_sub(n - e);
+                                if cols * n < comp_degree + 1 {
+                                    rep.violation("too-few-composition-columns", json!({"ctx": ctx, "exemptions": e, "columns": cols, "composition_degree": comp_degree, "highest_degree_on": where_}));
+                                }
+                                if c.ce_domain_size() < comp_degree + 1 {
+                                    rep.violation("evaluation-domain-too-small-for-composition-degree", json!({"ctx": ctx, "exemptions": e, "highest_degree_on": where_}));
+                                }
+                            },
+                            Err(pn) => {
+                                rep.count("contexts_refused");
+                                if !refusal(&pn) {
+                                    rep.violation(&format!("{}|context", pn.sig()), json!({"ctx": ctx, "exemptions": e, "highest_degree_on": where_}));
+                                }
+                            },
+                        }
                     }
                 }
             }
@@ -209,7 +246,7 @@ fn periodic<B: BaseFut>(rep: &mut Report, rng: &mut Rng, case: u64, max_log_n: u
 
 pub fn run(args: &Args) {
     let mut rep = Report::new("C23", "c23",
-        "(1) ConstraintDivisor::from_transition(n, e) for n = 8..2^K and every e <= n/2+1 (n <= 64; 7 values above), 3 fields: degree n-e, zero exactly on steps < n-e, value at random base and quadratic-extension points = prod_{s<n-e}(x-g^s); (2) every degree declaration base 1..B x cycle multisets (<= 2 cycles from all powers of two <= n, plus triples), n = 8..2^K: evaluation degree vs definition, min blowup vs documented formula and vs quotient degree; every context the constructor and set_num_transition_exemptions accept: columns * n >= composition degree + 1 and evaluation domain > composition degree; (3) periodic column polynomials of random GenAir instances reproduce values[s mod c] at every step; distinct = (kind, parameters)");
+        "(1) ConstraintDivisor::from_transition(n, e) for n = 8..2^K and every e <= n/2+1 (n <= 64; 7 values above), 3 fields: degree n-e, zero exactly on steps < n-e, value at random base and quadratic-extension points = prod_{s<n-e}(x-g^s); (2) every degree declaration base 1..B x cycle multisets (<= 2 cycles from all powers of two <= n, plus triples), n = 8..2^K: evaluation degree vs definition, min blowup vs documented formula and vs quotient degree; every context the constructor and set_num_transition_exemptions accept (single-segment, and multi-segment with the declaration on the auxiliary or on the main segment): columns * n >= composition degree + 1 and evaluation domain > composition degree; (3) periodic column polynomials of random GenAir instances reproduce values[s mod c] at every step; distinct = (kind, parameters)");
     let seed = args.seed();
     let thorough = args.thorough();
     let k = args.u64("maxlogn", if thorough { 11 } else { 9 }) as u32;
